@@ -107,7 +107,12 @@ func (call *CallStm) checkMappings(global *Ast, pipeline *Pipeline) error {
 	if err == nil && call.Mapping != nil {
 		switch call.Mapping.(type) {
 		case *placeholderMapSource, *placeholderArrayMapSource, *placeholderMapMapSource:
-			panic(call.Mapping)
+			// This happens if the call splits over the result of another
+			// map call, for which the source could not be resolved.
+			err = global.err(call,
+				"MapCallError: could not determine the collection "+
+					"which call '%s' is mapped over",
+				call.Id)
 		}
 	}
 	// Check all sources are consistent.  checkBindingMap will have merged them.
